@@ -500,8 +500,9 @@ func c01ProductFamilies(thorough bool) []c01Product {
 	// loop bodies (and their else branches) that end in another context than they start in, directly or through a callee
 	loops := c01Product{"loops", [][]string{
 		{"<ul>", "<b title=\"", ""}, {"{{range $.L}}"},
-		{"{{template \"ot\" $}}", "<b title=\"" + S, "{{template \"ot\" $}}x", "{{if $.C}}{{template \"ot\" $}}{{else}}<b title=\"" + S + "{{end}}", S + "\" id=\"", "{{template \"qi\" $}}", S + "\"><b title=\""},
-		{"{{else}}", ""}, {"<b title=\"none", "<b title=\"", ""}, {"{{end}}"}, {"\">x</b>", "x\">", ">"},
+		{"{{template \"ot\" $}}", "<b title=\"" + S, "{{template \"ot\" $}}x", "{{if $.C}}{{template \"ot\" $}}{{else}}<b title=\"" + S + "{{end}}", S + "\" id=\"", "{{template \"qi\" $}}", S + "\"><b title=\"",
+			"<b {{if $.C}}{{break}}{{end}}>x</b>", S + "<b {{if $.C}}{{continue}}{{end}}>x</b>", "<b title=\"{{if $.C}}{{break}}{{end}}\">" + S + "</b>", "<script>{{if $.C}}{{continue}}{{end}}</script>" + S},
+		{"{{else}}", ""}, {"<b title=\"none", "<b title=\"", ""}, {"{{end}}"}, {"\">x</b>", "x\">", ">", S + " ><i>y</i>", S},
 		{"{{define \"ot\"}}<b title=\"" + S + "{{end}}{{define \"qi\"}}" + S + "\" id=\"{{end}}"},
 	}}
 	// a conditional between "=" and the attribute value: the branch may or may not start the value
